@@ -3,14 +3,14 @@ from fractions import Fraction
 
 from hypothesis import strategies as st
 
-from vlib.runner import Violation, call
+from vlib.runner import Violation, call, clone_point
 from checks import net_common as NC
 
 PID = "C13"
 RULE = ("Hypothesis-generated annotated networks: (a) clean motif networks; (b) arbitrary simple graphs with 1..4 "
         "topology names on the edges and freely generated vertex annotations (>= 1 where the vertex has an edge of that "
         "topology), name lists possibly containing a topology without edges; r in 1..4 repeated get_ejks() calls on one "
-        "extractor; plus the overall-degree variant on the bare graph. Oracle: Fraction extractor written from the "
+        "extractor; plus the overall-degree variant on the bare graph. Annotations as tuples, lists or a mixture; names possibly falsy (0, ''); matrices requested for a prefix of the topologies; vertices named by the tuple of an existing edge; a second extractor alive. Oracle: Fraction extractor written from the "
         "definition (1e-12 plus 2e-16 per accumulated term). Non-trivial = some topology with >= 2 excess classes and r >= 2; distinct = canonical JSON")
 ASSUMPTIONS = ["simple graphs (no self-loops / multi-edges), as the quantifier states"]
 BUDGET = {"quick": (16, 300), "thorough": (16, 15000)}
@@ -37,8 +37,10 @@ def free_network(draw, tier):
                     jd[v][t] = draw(st.integers(1, 4))
                 else:
                     jd[v][t] = draw(st.integers(0, 2))
-    style = draw(st.sampled_from(["plain", "odd"]))
+    style = draw(st.sampled_from(["plain", "odd", "falsy"]))
     names = [f"{i + 2}-clique" if style == "plain" else f"top/{i}-x" for i in range(T)]
+    if style == "falsy":
+        names = [0, "", 1, "x"][:T]  # a topology label may be any value: coordinates 0, 1, 2 or an empty string
     return {"free": True, "n": n, "names": names, "edges": edges, "jd": jd,
             # vertex ids need not be 0..n-1 in insertion order; annotations may be tuples or lists
             # ("edge_named": vertex names are arbitrary hashables -- two vertices are named by the pair of names of an
@@ -174,6 +176,10 @@ def check(case):
     fresh_names = ["".join(list(n)) if isinstance(n, str) else n for n in names]
     seqtype = tuple if (case.get("names_as_tuple") and not case.get("big")) else list
     ext = call("construct", JointExcessJointDegree, {TN.NETWORK: G, TN.EDGE_NAMES: seqtype(fresh_names)})
+    # a second extractor for the same network with the names in reverse order is built and kept alive, and the caller
+    # may go on with a copy of the first
+    decoy = call("construct-second-extractor", JointExcessJointDegree, {TN.NETWORK: G, TN.EDGE_NAMES: list(reversed(fresh_names))})
+    ext = clone_point(ext, case)
     want = reference(G, names)
     T = Tj
     first_keys = None
